@@ -400,6 +400,8 @@ impl<'a, D: Dialect> RunProgramContext<'a, D> {
                 "softfork",
                 self.dialect.flags(),
             )?;
+            #[cfg(feature = "verif-hooks")]
+            crate::verif::log_cost(expected_cost, max_cost);
             if expected_cost > max_cost {
                 return Err(EvalErr::CostExceeded);
             }
@@ -544,6 +546,8 @@ impl<'a, D: Dialect> RunProgramContext<'a, D> {
                 max_cost
             };
 
+            #[cfg(feature = "verif-hooks")]
+            crate::verif::log_cost(cost, effective_max_cost);
             if cost > effective_max_cost {
                 return Err(EvalErr::CostExceeded);
             }
